@@ -201,6 +201,7 @@ dLUMemInit(fact_t fact, void *work, int_t lwork, int m, int n, int_t annz,
     double   *ucol;
     int_t    *usub, *xusub;
     int_t    nzlmax, nzumax, nzlumax;
+    int_t    top1_factors = 0; /* stack top before the four factor arrays */
     
     iword     = sizeof(int);
     dword     = sizeof(double);
@@ -243,6 +244,7 @@ dLUMemInit(fact_t fact, void *work, int_t lwork, int m, int n, int_t annz,
 	    xlusup = duser_malloc((n+1) * iword, HEAD, Glu);
 	    xusub  = duser_malloc((n+1) * iword, HEAD, Glu);
 	}
+	if ( Glu->MemModel == USER ) top1_factors = Glu->stack.top1;
 
 	lusup = (double *) dexpand( &nzlumax, LUSUP, 0, 0, Glu );
 	ucol  = (double *) dexpand( &nzumax, UCOL, 0, 0, Glu );
@@ -256,8 +258,9 @@ dLUMemInit(fact_t fact, void *work, int_t lwork, int m, int n, int_t annz,
 		SUPERLU_FREE(lsub); 
 		SUPERLU_FREE(usub);
 	    } else {
-		duser_free((nzlumax+nzumax)*dword+(nzlmax+nzumax)*iword,
-                            HEAD, Glu);
+		/* Give back what the four requests actually obtained; some
+		   of them may have failed and taken nothing. */
+		duser_free(Glu->stack.top1 - top1_factors, HEAD, Glu);
 	    }
 	    nzlumax /= 2;
 	    nzumax /= 2;
